@@ -756,6 +756,9 @@ func vRunLife(c *vCase) {
 			x.afterStop()
 		}
 	}
+	if c.Idx < 16 {
+		c.Describe("history: %v; observed orderings: %v", x.hist, ord.orderings())
+	}
 	c.Cov("points_held", ord.held)
 	if !x.dead {
 		c.Nontrivial()
